@@ -13,6 +13,12 @@ CLAIMED = {
         "Machine-checked Lean 4 theorems over an executable model of directory_git_object: any permutation of an entry list with distinct '/'-free names gives the same manifest; an independent tree decoder recovers the (mode,name,target) triples for every mode value; equal manifests imply equal entry multisets; the sort key order is git's base_name_compare; the five DentryPerms (regenerated from the live code) print as git's canonical modes. The model is tied to the code on every run by a differential check against the compiled model and by dulwich/git mktree.",
         "Trusted: Lean kernel (axioms propext, Quot.sound, Classical.choice only), gen_tables.py, the correspondence harness, CPython bytes/sorted semantics, hashlib. SHA-1 is uninterpreted in the theorems.",
     ),
+    "C05": (
+        "§6 C05",
+        "Lean 4 theorems (insertion-order invariance, decoder round-trip with length-prefixed targets, injectivity, exact characterisation of the unresolved-alias report) + model/implementation correspondence + independent encoder/decoder oracle",
+        "Machine-checked Lean 4 theorems over an executable model of snapshot_git_object: any insertion order of a branch map with distinct names gives the same manifest, id and unresolved report; an independent decoder recovers every (kind, name, target) for NUL-free names and targets of any length; equal manifests imply equal branch maps; the report lists exactly the aliases pointing to a missing branch or to themselves, in name order; strict formatting fails iff the report is non-empty and ignore_unresolved never fails. Kind names are tied to the live SnapshotTargetType enum by a regenerated table. Differential check against the compiled model on every run.",
+        "Trusted: Lean kernel (axioms propext, Quot.sound, Classical.choice only), gen_tables.py, the correspondence harness, CPython dict/sorted semantics, hashlib. SHA-1 is uninterpreted in the theorems.",
+    ),
 }
 
 PENDING_REASON = "check not built yet in this revision of /verif (planned in DESIGN.md §6; Lean model and correspondence harness under construction)"
